@@ -448,6 +448,9 @@ def listing_passthrough(ctx) -> None:
 
 
 def run(ctx) -> None:
+    from . import C08
+
+    C08.eqhash_agreement(ctx, ('forml.io.asset',), floor=3)
     atomic(ctx)
     listing_passthrough(ctx)
     close_order(ctx)
